@@ -1710,6 +1710,61 @@ impl HasQoSPolicy for Writer {
   }
 }
 
+#[cfg(rustdds_verif)]
+impl Writer {
+  // The statements handle_timed_event() runs for each timed event, callable without waiting
+  // for the wall-clock timer.
+  pub(crate) fn verif_fire_repair_data(&mut self, reader_guid: GUID) {
+    self.handle_repair_data_send(reader_guid);
+  }
+
+  pub(crate) fn verif_fire_repair_frags(&mut self, reader_guid: GUID) {
+    self.handle_repair_frags_send(reader_guid);
+  }
+
+  pub(crate) fn verif_fire_cache_cleaning(&mut self) {
+    self.handle_cache_cleaning();
+  }
+
+  pub(crate) fn verif_history_sns(&self) -> Vec<i64> {
+    self
+      .history_buffer
+      .sequence_number_to_instant
+      .keys()
+      .map(|s| i64::from(*s))
+      .collect()
+  }
+
+  pub(crate) fn verif_first_last(&self) -> (i64, i64) {
+    (
+      i64::from(self.history_buffer.first_change_sequence_number()),
+      i64::from(self.history_buffer.last_change_sequence_number()),
+    )
+  }
+
+  pub(crate) fn verif_proxy(&self, reader_guid: GUID) -> crate::verif::writer_rig::ProxyView {
+    match self.readers.get(&reader_guid) {
+      None => crate::verif::writer_rig::ProxyView::default(),
+      Some(rp) => crate::verif::writer_rig::ProxyView {
+        present: true,
+        all_acked_before: i64::from(rp.all_acked_before),
+        unsent: rp.unsent_changes_iter().map(i64::from).collect(),
+        pending_gap: rp.get_pending_gap().iter().map(|s| i64::from(*s)).collect(),
+        repair_mode: rp.repair_mode,
+        frags_requested: rp.repair_frags_requested(),
+      },
+    }
+  }
+
+  pub(crate) fn verif_matched_readers(&self) -> Vec<[u8; 16]> {
+    self
+      .readers
+      .keys()
+      .map(|g| crate::verif::reader_rig::guid_to_bytes(*g))
+      .collect()
+  }
+}
+
 // -------------------------------------------------------------------------------------
 // -------------------------------------------------------------------------------------
 // -------------------------------------------------------------------------------------
